@@ -1668,7 +1668,15 @@ pub async fn reload_config(client_server_map: ClientServerMap) -> Result<bool, E
 
     if old_config != new_config {
         info!("Config changed, reloading");
-        ConnectionPool::from_config(client_server_map).await?;
+
+        // The pools could not be built from the new configuration: it is not in effect,
+        // keep the one the running pools were built from so that the next reload tries again.
+        if let Err(err) = ConnectionPool::from_config(client_server_map).await {
+            error!("Config reload error, keeping the previous configuration: {:?}", err);
+            CONFIG.store(Arc::new(old_config));
+            return Err(err);
+        }
+
         Ok(true)
     } else {
         Ok(false)
